@@ -318,7 +318,11 @@ class _RawConfigParser(configparser.RawConfigParser):
     self._sections = collections.OrderedDict()
 
   def optionxform(self, option):
-    option = option.strip()
+    # Remove all whitespace here (not only in the dict used for storage) so that the parser's
+    # own duplicate check, has_option() and the override/add/remove machinery all see the same
+    # normalised key: 'A - B' and 'A-B' are one and the same option.
+    option = option.strip().replace(' ', '')
+    option = option.replace('\t', '')
     return option
 
 class ConfigParser(object):
